@@ -310,12 +310,25 @@ def result_elements(c, r):
     return list(els)
 
 
+STATS = {'oracle_judged': 0, 'oracle_not_judged': 0}
+
+
+def extra_evidence():
+    return {'oracle_judged_cases': STATS['oracle_judged'],
+            'oracle_not_judged_cases': STATS['oracle_not_judged'],
+            'oracle_not_judged_why': 'TypeError inputs (unhashable / unorderable keys) and reduce/fold/aggregate '
+                                     'arguments outside Spark\'s contract (non-commutative, non-neutral zero): '
+                                     'model-vs-implementation only'}
+
+
 def oracle(c, r):
     op = c[0]
     name = OPS[op]
     want, mode = spec(c)
     if mode is None:
+        STATS['oracle_not_judged'] += 1
         return None
+    STATS['oracle_judged'] += 1
     if isinstance(r, Err):
         return (f'{name}:raises-{r.name}', f'{name} raised {r.name} on inputs for which Spark defines a result')
     got = result_elements(c, r)
@@ -518,7 +531,7 @@ CORPUS = [
 def generate(rng, tier):
     cases = list(CORPUS)
     cases += exhaustive_cases(rng, tier)
-    n = 2500 if tier == 'quick' else 30000
+    n = 2500 if tier == 'quick' else 60000
     ops = list(range(len(OPS)))
     for i in range(n):
         cases.append(random_case(rng, ops[i % len(ops)]))
